@@ -59,13 +59,13 @@ Proof. vm_compute. split; reflexivity. Qed.
 (* C04 refuted for the legacy code: it cannot be typed against the protocol — a thread holding ONE reference that reads
    any value other than 1 from its decrement goes on to read a buffer it no longer holds (another owner may free it) *)
 Theorem legacy_reserve_not_protocol_safe : forall b l add g (Q : repr * bool -> ghost -> Prop),
-  checked_add l add <> None -> g_refs g b = 1%nat -> g_excl g b = false ->
+  checked_add l add <> None -> g_refs g b = 1%nat -> g_excl g b = false -> g_bor g b = false ->
   ~ okc (legacy_reserve (Heap b l) add) g Q.
 Proof.
-  intros b l add g Q Hc Hr He H. cbn [legacy_reserve] in H. destruct (checked_add l add) as [needed|]; [|congruence].
+  intros b l add g Q Hc Hr He Hb H. cbn [legacy_reserve] in H. destruct (checked_add l add) as [needed|]; [|congruence].
   cbn [bind rmw okc] in H. destruct H as (_ & _ & _ & H). specialize (H 2). cbn [N.eqb Pos.eqb bind read okc] in H.
-  destruct H as (Hread & _). unfold can_read in Hread. cbn [g_refs g_excl g_free g_fen] in Hread. unfold setf in Hread.
-  rewrite Nat.eqb_refl in Hread. rewrite Hr in Hread. destruct Hread as [H0|[H0|(H0 & _)]]; [lia|discriminate|discriminate].
+  destruct H as (Hread & _). unfold can_read in Hread. cbn [g_refs g_excl g_free g_fen g_bor] in Hread. unfold setf in Hread.
+  rewrite Nat.eqb_refl in Hread. rewrite Hr in Hread. destruct Hread as [H0|[H0|[(H0 & _)|H0]]]; [lia|discriminate|discriminate|congruence].
 Qed.
 
 (* Repr::shrink_to before 8892b12: the shared path sized the copy with the amortised growth rule *)
@@ -98,3 +98,42 @@ Theorem legacy_shrink_refuted : fst (run (shrink_scenario legacy_shrink_shared) 
 Proof. vm_compute. reflexivity. Qed.
 Theorem shrink_same_history_ok : fst (run (shrink_scenario shrink_to) m_empty) = OVal 40.
 Proof. vm_compute. reflexivity. Qed.
+
+(* FromIterator<char> before 6540da4 (F3): the accumulator was a bare Repr (no Drop), so when the iterator — or a push —
+   panicked, unwinding skipped the only statement that would have put the buffer under a LeanString: nothing released it *)
+Definition legacy_collect_chars (hint : N) (panic_at : option nat) (cs : list N) : cmd (option repr * outcome) :=
+  oc <- with_capacity hint ;;
+  let r0 := match oc with Some r => r | None => repr_new end in
+  p <- push_chars r0 cs 0 panic_at ;;
+  let '(r, o) := p in
+  match o with
+  | OkUnit => Ret (Some r, OkUnit)
+  | _ => Ret (None, o)                     (* unwinding: the raw Repr is forgotten, its buffer is not released *)
+  end.
+Definition chars20 : list N := repeat 97 20.
+(* C18 / C03 refuted for the legacy code: an iterator that panics at its 20th item (the text is on the heap by then)
+   leaves a live buffer that no handle names *)
+Theorem legacy_collect_refuted :
+  let '(o, m) := run (legacy_collect_chars 0 (Some 19%nat) chars20) m_empty in
+  o = OVal (None, PanicUser) /\ len (filter live (heap m)) = 1.
+Proof. vm_compute. split; reflexivity. Qed.
+(* the repaired function on the same history: the panic is the same, and nothing stays allocated *)
+Theorem collect_same_history_ok :
+  let '(o, m) := run (collect_chars 0 (Some 19%nat) chars20) m_empty in
+  o = OVal (None, PanicUser) /\ len (filter live (heap m)) = 0.
+Proof. vm_compute. split; reflexivity. Qed.
+
+(* the generic arm of try_to_lean_string before 1a2b297 (F4): it wrote through fmt::Write for LeanString, whose write_str
+   is the PANICKING push_str; a refused allocation therefore panicked out of the try_ form *)
+Definition legacy_display (m : mode) (err_at panic_at : option nat) (ps : list (list N)) : cmd (option repr * outcome) :=
+  p <- write_pieces repr_new ps 0 err_at panic_at ;; finish_acc p.
+(* C05 refuted for the legacy code: with an allocator that refuses the first request, try_to_lean_string of a Display type
+   writing 20 bytes panics with the ReserveError message instead of returning Err(Reserve) *)
+Definition m_refuse_first : mem := mem0 [] (fun k _ => k =? 0).
+Theorem legacy_display_refuted :
+  fst (run (legacy_display Try None None [chars20]) m_refuse_first) = OVal (None, PanicReserve).
+Proof. vm_compute. reflexivity. Qed.
+Theorem display_same_history_ok :
+  fst (run (display Try None None [chars20]) m_refuse_first) = OVal (None, ErrReserve)
+  /\ fst (run (display Plain None None [chars20]) m_refuse_first) = OVal (None, PanicReserve).
+Proof. vm_compute. split; reflexivity. Qed.
